@@ -141,3 +141,16 @@ Print Assumptions gap_vanishes_partial.
 Print Assumptions gap_vanishes.
 Print Assumptions shear_finite.
 (* the two float Examples depend on the kernel primitives of PrimFloat/PrimInt63 only (not printed) *)
+
+(** averages and velocities are well defined and strictly positive wherever the adiabatic stiffness is positive
+    definite (over R: no Reuss denominator vanishes, both velocity radicands are positive) - VRHPos.v *)
+From Cij Require VRHModel VRH VRHBounds VRHPos.
+Theorem averages_and_velocities_well_defined :
+  forall (c s : Z -> Z -> R) (ry M V : R),
+    VRH.msym c -> VRHBounds.posdef c -> VRHBounds.left_inverse s c -> 0 < ry -> 0 < M -> 0 < V ->
+    VRHBounds.den_K s <> 0 /\ VRHBounds.den_G s <> 0 /\
+    0 < VRHModel.bulk_reuss s /\ 0 < VRHModel.bulk_vrh c s /\ 0 < VRHModel.bulk_voigt c /\
+    0 < VRHModel.shear_reuss s /\ 0 < VRHModel.shear_vrh c s /\ 0 < VRHModel.shear_voigt c /\
+    0 < VRHModel.v_primary (OF:=ROps) ry M V c s /\ 0 < VRHModel.v_secondary (OF:=ROps) ry M V c s.
+Proof. exact VRHPos.vrh_well_defined_for_posdef. Qed.
+Print Assumptions averages_and_velocities_well_defined.
